@@ -21,6 +21,12 @@
      issued by the owner; the subscription rows of the store, access control, the per-user
      online counters, presence, p2p, 'me', account deletion are not in this model (the driver
      exercises them on the real code);
+   - a store call can FAIL at one place: store.Topics.Delete inside Hub.topicUnreg (step [HubUnregFail], round
+     s14d); the topic's status word (paused / marked deleted bits) is Sys/TopicStatusC14d.v, of which this file
+     keeps `paused` as the phase PInit and `marked deleted` as [i_deleted];
+   - Session.detach is one of the unbounded queues: [s_detach] always appends.  The real channel has 64 slots and
+     the sender WAITS when it is full; that a notice is never dropped is checked on the code by the many-topics
+     scenarios of the driver (tools/props/c14d.py), not proved;
    - a topic NAME can have several INSTANCES over time (unload + reload); Session.subs points
      to the instance whose channels it holds, exactly like the Go Subscription struct. *)
 From Coq Require Import List Arith Bool.
